@@ -228,8 +228,7 @@ tagspec(struct scope *s)
 		if (!t->u.structunion.members)
 			error(&tok.loc, "struct/union has no members");
 		next();
-		if (!b.pack)
-			t->size = ALIGNUP(t->size, t->align);
+		t->size = ALIGNUP(t->size, t->align);
 		break;
 	case TYPEENUM:
 		enumconsts = NULL;
